@@ -489,6 +489,16 @@ scalar __Custom\ninput __In { x: Int  y: __In }\ninterface __Node { id: Int }\nu
                     let tri = ["... on Dog { x: name }", "... on Cat { x: name }", "... on Cat { x: nick }"];
                     for o in [[0, 1, 2], [0, 2, 1], [1, 0, 2], [1, 2, 0], [2, 0, 1], [2, 1, 0]] { docs.push(format!("{{ pet {{ {} {} {} }} }}", tri[o[0]], tri[o[1]], tri[o[2]])); }
                 }
+                if si.name == "merge-abstract" {
+                    // twin fields carrying the same two to four arguments, in the same and in different orders (all mergeable): permuting
+                    // the arguments of either twin changes nothing
+                    for (x, y) in [("f(x: 1, y: [2])", "f(x: 1, y: [2])"), ("f(x: 1, y: [2])", "f(y: [2], x: 1)"), ("f(x: 1, y: [2], fl: 1.5)", "f(fl: 1.5, x: 1, y: [2])"), ("f(x: 1, y: [2], fl: 1.5)", "f(y: [2], fl: 1.5, x: 1)"),
+                                   ("f(x: $v, o: {a: 1, b: 2}, y: [], fl: 0.5)", "f(fl: 0.5, y: [], o: {a: 1, b: 2}, x: $v)"), ("f(x: 1, y: [2])", "f(y: [2], x: 2)")] {
+                        docs.push(format!("query ($v: Int) {{ human {{ k: {} k: {} f(x: $v) }} }}", x, y));
+                        docs.push(format!("query ($v: Int) {{ human {{ self {{ k: {} }} ...F f(x: $v) }} }} fragment F on Human {{ self {{ k: {} }} }}", x, y));
+                        docs.push(format!("query ($v: Int) {{ pet {{ owner {{ k: {} }} ... on Dog {{ owner {{ k: {} }} }} owner {{ f(x: $v) }} }} }}", x, y));
+                    }
+                }
                 if si.name == "merge-order" {
                     docs.clear();
                     let tri = ["self { nn }", "self { x: name }", "self { x: nn }"];
